@@ -52,11 +52,15 @@ def run_case(ctx, rng, idx):
         labels = list(history.UNIVERSES[uni])
         rng.shuffle(labels)
         labels = labels[: rng.randint(3, 8)]
+        big = idx in (0, 1) or (ctx.tier == "thorough" and idx % 400 == 8)
+        if big:
+            ctx.event("big-initial-hypergraph")
+            labels = [7 * i - 50 for i in range(rng.randint(25, 45))]
         es = set()
-        for _ in range(40):
+        for _ in range(40 if not big else 400):
             s = min(rng.choice([2, 2, 3, 3, 4, 5]), len(labels))
             es.add(frozenset(rng.sample(labels, s)))
-            if len(es) >= rng.randint(2, 10):
+            if len(es) >= (rng.randint(2, 10) if not big else rng.randint(60, 120)):
                 break
         if len(es) < 2:
             return
@@ -100,8 +104,8 @@ def run_case(ctx, rng, idx):
     max_size = rng.choice([None, rng.randint(max(2, max((len(e) for e in (init_edges or [])), default=2), max(dim_seq or {2: 0})), N)])
 
     def wit(extra=None):
-        return {"mode": mode, "N": N, "u": u.tolist(), "w": w.tolist(), "max_hye_size": max_size, "burn_in": burn, "thinning": thin, "seed": seed,
-                "initial": None if init_edges is None else [sorted(e, key=repr) for e in init_edges],
+        return {"mode": mode, "N": N, "u": u.tolist() if N <= 12 else None, "w": w.tolist(), "max_hye_size": max_size, "burn_in": burn, "thinning": thin, "seed": seed,
+                "initial": None if init_edges is None else [sorted(e, key=repr) for e in init_edges] if len(init_edges) <= 30 else len(init_edges),
                 "deg_seq": None if deg_seq is None else deg_seq.tolist(), "dim_seq": dim_seq, "allow_rescaling": rescale, "extra": repr(extra)[:900]}
 
     # ---- chain monitor ------------------------------------------------------------------------
